@@ -13,7 +13,7 @@ CHECKS = {
          "exploration: ~1.3M stream/partition pairs per quick run: every 2-way cut of short streams (incl. inside UTF-8 sequences and escape sequences), every 3-way cut of very short ones, unit-at-a-time, random k-way cuts with empty chunks, for Parser, ByteParser UTF-8 and ByteParser 8-bit, plus random cuts of the seven captured sessions",
          "both runs are the implementation itself: a chunk-independent but wrong result is other properties' business", "§6 C02"),
  "C03": ("event-log conformance against an independently written explicit-state recogniser; class-alphabet strings enumerated with ground-state pruning",
-         "exploration with an exhaustive sub-domain: all strings up to length 4 (quick) / 6 (thorough) over a 73-character class alphabet whose proper prefixes keep the reference outside ground, both parser modes, plus all ordered pairs of a pool of 313 complete/aborted/skipped sequences, digit runs of 1..40 digits and parameters around the machine-integer widths for every final, the three dispatch tables called directly, random long strings and mutated sessions; the listener's dispatch tables are inside the observed system",
+         "exploration with an exhaustive sub-domain: all strings up to length 4 (quick) / 6 (thorough) over an 87-character class alphabet whose proper prefixes keep the reference outside ground, both parser modes, plus all 135 424 ordered pairs of a pool of 368 complete / aborted / skipped / foreign sequences, all 83 521 chains of length 4 over a focused pool, zero padding and parameter lists of extreme length, two parsers interleaved on one thread, digit runs of 1..40 digits and parameters around the machine-integer widths for every final, the three dispatch tables called directly, random long strings and mutated sessions; the listener's dispatch tables are inside the observed system",
          "where the statement is silent the reference follows the documented pyte recogniser; OSC R/P and multi-character OSC codes are don't-care; Cc characters ignored in text comparison", "§6 C03, App. A"),
  "C04": ("per-step Hoare monitor: reference drawing semantics on the implementation's own pre-state; zoo states x text classes, API + parser path",
          "exploration with an exhaustive sub-domain: every Unicode scalar value (1 112 064) drawn between two letters, at the last column and after a double-width character; plus ~1M judged draw() calls per quick run over zoo states (pending wrap, IRM, DECAWM off, margins, wide/combining content, 1-column screens) and a 46-character class pool (singles, all ordered pairs, random strings)",
@@ -28,7 +28,7 @@ CHECKS = {
          "exploration with exhaustive sub-domains: every ED/EL/ECH call judged cell by cell; all cursor cells incl. pending wrap x all selectors x P(columns) enumerated on small screens; every Unicode scalar value drawn with the erasing rendition and then erased",
          "contents/renditions sampled from the state zoo", "§6 C07"),
  "C08": ("per-step Hoare monitor: independent SGR fold with computed xterm palette; exhaustive single codes / extended-colour forms / pairs",
-         "exploration with exhaustive sub-domains: every SGR code 0..=9999, every 38|48;5;n and boundary 38|48;2;r;g;b form, truncated forms and all ordered pairs of 70 codes from 6 attribute states, API + parser, each followed by drawing a character; plus random lists",
+         "exploration with exhaustive sub-domains: all 16 777 216 true colours 38|48;2;r;g;b; every SGR code 0..=9999, every 38|48;5;n and boundary 38|48;2;r;g;b form, truncated forms and all ordered pairs of 70 codes from 6 attribute states, API + parser, each followed by drawing a character; plus random lists",
          "palette computed from the xterm definition; triples and longer lists sampled", "§6 C08"),
  "C09": ("invariant hook evaluated after every listener call / resize of long mixed histories (observed inside feed() by the pass-through listener)",
          "exploration: ~4M invariant evaluations per quick run over mixed byte/API/resize/DECCOLM histories; a violation is attributed to the call after which it first holds; display() length checked on forks",
@@ -49,7 +49,7 @@ CHECKS = {
          "exploration: ~1.4M judged calls per quick run; DECSC must push exactly the observable cursor state and DECRC pop it with the documented clamping and one-way mode re-enabling; every other call must leave the stack alone",
          "the saved stack is observed through the public savepoints field; a saved pending-wrap column may come back as columns or columns-1", "§6 C14"),
  "C15": ("model-free: snapshot(h . RIS) vs Screen::new of the current size, and (h . RIS . t) vs (new . t) after every op of t",
-         "exploration: ~100k histories per quick run (1.4M continuation steps); every Screen component is perturbed before RIS (counted per component, required non-zero); RIS via ESC c and reset()",
+         "exploration with an exhaustive sub-domain: every chain of up to 4 (thorough 5) cell-free operations from a new screen, then RIS; plus ~100k histories per quick run (1.4M continuation steps); every Screen component is perturbed before RIS (counted per component, required non-zero); RIS via ESC c and reset()",
          "continuations contain no DECRC (the saved stack is the one thing RIS leaves alone)", "§6 C15"),
  "C16": ("per-step Hoare monitor: reference crop/extend + reappearance probe (grow after every judged resize)",
          "exploration: all target sizes 1..=max+2 in both dimensions for screens <= 8x5 from zoo states (margins, DECOM, pending wrap, wide characters, hidden-cell producers), resize sequences <= 3, DECCOLM round trips; every judged state is grown by (+2,+2) and the new area must be blank",
